@@ -291,7 +291,8 @@ pub fn gen_combined(rng: &mut Rng, cfg: &GenCfg) -> T {
   if !give_orig && !outer.contents.is_empty() { outer.contents[k] = orig_text.clone(); }
   if !give_orig && outer.contents.is_empty() { outer.contents = outer.sources.iter().map(|s| if s == inner_name { orig_text.clone() } else { default_content(s) }).collect(); }
   outer.root = None;
-  if self_named {
+  // (with fixed file contents every name has one content across the whole case: only maps that list all contents take part)
+  if self_named && (!cfg.fixed_files || inner.contents.len() >= inner.sources.len()) {
     // the same file under the same name: it has to carry the same content wherever it is listed
     inner.sources[0] = inner_name.to_string();
     if inner.contents.len() < inner.sources.len() { inner.contents = inner.sources.iter().map(|s| format!("ab;cd {s}\nsecond line;\nthird\n")).collect(); }
